@@ -165,12 +165,16 @@ void h_sse_memcpy_small_bounded(void) {
   if (n == 130) CQV_CANARY("64, 16 and byte steps all taken");
   CQV_CANARY("returns");
 }
+#ifndef CQV_ML_BUF
+#define CQV_ML_BUF 64
+#define CQV_ML_MAX 48
+#endif
 void h_sse_match_length_bounded(void) {
   /* LZ situation: p and match in one buffer, match before p, limit = end of the buffer (exact
-   * size: any over-read of p is out of bounds); limit - p <= 48 */
-  size_t tot = 64, po = nondet_size_t(), mo = nondet_size_t();
-  __CPROVER_assume(po <= tot && tot - po <= 48 && mo <= po);
-  uint8_t *buf = malloc(64);
+   * size: any over-read of p is out of bounds); limit - p <= CQV_ML_MAX, buffer of CQV_ML_BUF bytes */
+  size_t tot = CQV_ML_BUF, po = nondet_size_t(), mo = nondet_size_t();
+  __CPROVER_assume(po <= tot && tot - po <= CQV_ML_MAX && mo <= po);
+  uint8_t *buf = malloc(CQV_ML_BUF);
   __CPROVER_assume(buf != NULL);
   const uint8_t *p = buf + po, *match = buf + mo;
   size_t r = carquet_sse_match_length(p, match, buf + tot);
@@ -178,8 +182,8 @@ void h_sse_match_length_bounded(void) {
   __CPROVER_assert(r <= tot - po, "result capped at limit - p");
   __CPROVER_assert(!(k < r) || p[k] == match[k], "the first r bytes are equal");
   __CPROVER_assert(!(r < tot - po) || p[r] != match[r], "byte r differs unless the limit was reached");
-  if (r > 20 && r < tot - po) CQV_CANARY("partial match possible");
-  if (r == 48) CQV_CANARY("full match possible");
+  if (r > 17 && r < tot - po) CQV_CANARY("partial match possible");
+  if (r == CQV_ML_MAX) CQV_CANARY("full match possible");
   CQV_CANARY("returns");
 }
 
